@@ -55,7 +55,11 @@ func puritySession(g *gen.G, idx int) Sess {
 		}
 		nc := 2 + g.N(6)
 		for c := 0; c < nc && alive; c++ {
-			switch r := g.N(10); {
+			switch r := g.N(11); {
+			case r == 10 && len(base) > 1:
+				// a layer for the first document only (the one the others refer to)
+				merge(fmt.Sprintf("s%d.c%d", idx, c), base, map[string]any{"$match": map[string]any{"name": "d0"},
+					g.Pick([]string{"t0", "t1", "h0", "fresh"}): g.Pick([]string{"changed", "other"}) + fmt.Sprint(c)})
 			case r < 3:
 				docs := s.P.Documents()
 				target := docs[g.N(len(docs))].Data
